@@ -15,17 +15,8 @@ func NewArrayPattern(elements ...FallbackPattern) ArrayPattern {
 }
 
 func (p ArrayPattern) Bind(ctx context.Context, local Scope, value Value) (context.Context, Scope, error) {
-	switch value.(type) {
-	case EmptySet:
-		if len(p.items) == 0 {
-			return ctx, EmptyScope, nil
-		}
-		return ctx, EmptyScope, fmt.Errorf("value [] is empty but pattern %s is not", p)
-	case GenericSet:
-		return ctx, EmptyScope, fmt.Errorf("value %s is not an array", value)
-	}
-
-	array, is := value.(Array)
+	// The empty set is the empty array: `...` then captures nothing and a fallback item is absent.
+	array, is := AsArray(value)
 	if !is {
 		return ctx, EmptyScope, fmt.Errorf("value %s is not an array", value)
 	}
